@@ -134,6 +134,7 @@ func forEachBlock(thorough bool, emit func(block)) {
 	}
 	secondary := []combo{
 		{ch: "urlenc", style: "pct", ctype: "charset"}, {ch: "urlenc", style: "pct", ctype: "charset-nospace"},
+		{ch: "urlenc", style: "pct", ctype: "charset-no-value"}, {ch: "multipart", ctype: "charset-no-value"},
 		{ch: "urlenc", style: "pct", ctype: "case"}, {ch: "urlenc", style: "pct", ctype: "ctl"},
 		{ch: "urlenc", style: "pct", ctype: "forcevar"}, {ch: "urlenc", style: "pct", ctype: "raw"},
 		{ch: "urlenc", style: "pct", set: Setting{NoAccess: true}},
